@@ -15,6 +15,7 @@ import (
 	"encoding/json"
 	"errors"
 	"fmt"
+	"io"
 	"os"
 	"path/filepath"
 	"regexp"
@@ -24,6 +25,7 @@ import (
 	"sync/atomic"
 	"time"
 
+	"github.com/compose-spec/compose-go/v2/dotenv"
 	"github.com/compose-spec/compose-go/v2/template"
 	"github.com/compose-spec/compose-go/v2/types"
 
@@ -833,7 +835,30 @@ func c16Judge(j func(args, real, drv json.RawMessage) *core.Verdict) func(args, 
 	}
 }
 
+// c16kv is a private env_file format registered in the (process-global) dotenv registry so that registered formats are
+// exercised on the real code; the model's copy is `kvParser` (Model/EnvLayers.lean).  Every line `K=V` is taken
+// literally at its first `=`, a line without `=` is inherited from the lookup.  The name `raw` stays unregistered.
+func c16kvParser(r io.Reader, _ string, lookup func(string) (string, bool)) (map[string]string, error) {
+	b, err := io.ReadAll(r)
+	if err != nil {
+		return nil, err
+	}
+	out := map[string]string{}
+	for _, line := range strings.Split(string(b), "\n") {
+		if line == "" {
+			continue
+		}
+		if k, v, ok := strings.Cut(line, "="); ok {
+			out[k] = v
+		} else if v, ok := lookup(line); ok {
+			out[line] = v
+		}
+	}
+	return out, nil
+}
+
 func init() {
+	dotenv.RegisterFormat("c16kv", c16kvParser)
 	core.Register("c16.resolve", &core.CheckDef{
 		Timeout:  c16Timeout,
 		Real:     c16Guard(c16RealResolve),
